@@ -244,6 +244,23 @@ def respond (s : St) (p : ObjId) (code : Nat) (b : Body) : St × List Out :=
 
 /-! ### the driver side -/
 
+/-- what `async_send_event` does to protocol object `q` (it is reached through the registry entry of
+    a subscribed address other than the sender's); ghost: `since` is set for every registered
+    subscriber, the sender included -/
+def pubObj (c : Cfg) (s : St) (x : Cid) (v : Val) (sender : Option Addr) (subs : List Addr) (q : ObjId) : Obj :=
+  let o := s.obj q
+  if s.reg o.addr = some q ∧ o.addr ∈ subs then
+    if some o.addr = sender then { o with since := upd o.since x true }
+    else { (enqueue o x v (c.imm x) sender s.now) with since := upd o.since x true }
+  else o
+
+/-- the subscriber set of the topic after `async_send_event` pruned the addresses without a
+    registry entry (`push_event` returned False); the sender is skipped before the push -/
+def pubTopic (s : St) (sender : Option Addr) (subs : List Addr) : Option (List Addr) :=
+  let unsubs := subs.filter (fun a => some a ≠ sender ∧ s.reg a = none)
+  let keep := subs.filter (fun a => ¬ (some a ≠ sender ∧ s.reg a = none))
+  if unsubs = [] then some subs else (if keep = [] then none else some keep)
+
 /-- `Characteristic.notify → Accessory.publish → AccessoryDriver.publish → async_send_event`
     for a change of `x` to `v` caused by `sender` (closed form of the subscriber loop). -/
 def publish (c : Cfg) (s : St) (x : Cid) (v : Val) (sender : Option Addr) : St :=
@@ -251,17 +268,9 @@ def publish (c : Cfg) (s : St) (x : Cid) (v : Val) (sender : Option Addr) : St :
   | none => s
   | some subs =>
     if s.stopped then s else
-    let unsubs := subs.filter (fun a => some a ≠ sender ∧ s.reg a = none)
-    let keep := subs.filter (fun a => ¬ (some a ≠ sender ∧ s.reg a = none))
     { s with
-      obj := fun q =>
-        let o := s.obj q
-        if s.reg o.addr = some q ∧ o.addr ∈ subs then
-          if some o.addr = sender then { o with since := upd o.since x true }
-          else { (enqueue o x v (c.imm x) sender s.now) with since := upd o.since x true }
-        else o
-      topics := if unsubs = [] then s.topics
-                else upd s.topics x (if keep = [] then none else some keep) }
+      obj := pubObj c s x v sender subs
+      topics := upd s.topics x (pubTopic s sender subs) }
 
 /-- `HAPServer.discard_stale_event(aid, iid, char.value, client_addr)` (C12 repair) -/
 def discardStale (c : Cfg) (s : St) (a : Addr) (x : Cid) : St :=
@@ -275,33 +284,41 @@ def discardStale (c : Cfg) (s : St) (a : Addr) (x : Cid) : St :=
       | some w => if some w ≠ s.value x then { s with obj := upd s.obj q { o with queue := adel o.queue x } } else s
   else s
 
-/-- `Characteristic.set_value(v)` from the application -/
-def appSet (c : Cfg) (s : St) (x : Cid) (v : Val) : St :=
+/-- value assignment + change detection + `notify` + always-null reset, common to
+    `Characteristic.set_value(v)` (sender = none) and `client_update_value(v, sender)`
+    (no setter callback installed) -/
+def writeVal (c : Cfg) (s : St) (x : Cid) (v : Val) (sender : Option Addr) : St :=
   let changed := s.value x ≠ some v
   let s1 := { s with value := upd s.value x (some v) }
-  let s2 := if changed then publish c s1 x v none else s1
+  let s2 := if changed then publish c s1 x v sender else s1
   if c.nul x then { s2 with value := upd s2.value x none } else s2
 
-/-- `PUT /characteristics` from a verified connection: `_notify`, then the write
-    (`client_update_value`), then the stale-entry discard; ghost: own acknowledged write. -/
-def putChars (c : Cfg) (s : St) (p : ObjId) (x : Cid) (ev : Option Bool) (val : Option Val) : St :=
+/-- `Characteristic.set_value(v)` from the application -/
+def appSet (c : Cfg) (s : St) (x : Cid) (v : Val) : St := writeVal c s x v none
+
+/-- `_notify`: the `ev` member of a write query (ghost: `since` ends with an unsubscription) -/
+def putSub (s : St) (p : ObjId) (x : Cid) (ev : Option Bool) : St :=
   let a := (s.obj p).addr
-  let s1 : St :=
-    match ev with
-    | none => s
-    | some true => { s with topics := upd s.topics x (subAdd (s.topics x) a) }
-    | some false =>
-      { s with topics := upd s.topics x (subDel (s.topics x) a)
-               obj := upd s.obj p { s.obj p with since := upd (s.obj p).since x false } }
+  match ev with
+  | none => s
+  | some true => { s with topics := upd s.topics x (subAdd (s.topics x) a) }
+  | some false =>
+    { s with topics := upd s.topics x (subDel (s.topics x) a)
+             obj := upd s.obj p { s.obj p with since := upd (s.obj p).since x false } }
+
+/-- the `value` member of a write query: `client_update_value`, then the stale-entry discard;
+    ghost: the writer has learned `v` from its own acknowledged write -/
+def putVal (c : Cfg) (s : St) (p : ObjId) (x : Cid) (v : Val) : St :=
+  let a := (s.obj p).addr
+  let s5 := discardStale c (writeVal c s x v (some a)) a x
+  { s5 with obj := upd s5.obj p { s5.obj p with learned := upd (s5.obj p).learned x (some v) } }
+
+/-- `AccessoryDriver.set_characteristics` for one query from a verified connection -/
+def putChars (c : Cfg) (s : St) (p : ObjId) (x : Cid) (ev : Option Bool) (val : Option Val) : St :=
+  let s1 := putSub s p x ev
   match val with
   | none => s1
-  | some v =>
-    let changed := s1.value x ≠ some v
-    let s2 := { s1 with value := upd s1.value x (some v) }
-    let s3 := if changed then publish c s2 x v (some a) else s2
-    let s4 := if c.nul x then { s3 with value := upd s3.value x none } else s3
-    let s5 := discardStale c s4 a x
-    { s5 with obj := upd s5.obj p { s5.obj p with learned := upd (s5.obj p).learned x (some v) } }
+  | some v => putVal c s1 p x v
 
 /-- `AccessoryDriver.prepare` -/
 def addPid (l : Option (List Pid)) (pid : Pid) : Option (List Pid) :=
@@ -309,9 +326,19 @@ def addPid (l : Option (List Pid)) (pid : Pid) : Option (List Pid) :=
   | none => some [pid]
   | some l => if pid ∈ l then some l else some (l ++ [pid])
 
-/-- `data_received` with one complete request, on a connection whose transport is open. -/
-def onData (c : Cfg) (s : St) (p : ObjId) (r : Req) : St × List Out :=
-  let s := { s with obj := upd s.obj p { s.obj p with last := s.now } }
+/-- `self.last_activity = time.time()` at the top of `data_received` -/
+def touch (s : St) (p : ObjId) : St := { s with obj := upd s.obj p { s.obj p with last := s.now } }
+
+/-- a `PUT /characteristics` request: 401 when the session is not verified, else the write and 204;
+    with `Connection: close` h11 is in MUST_CLOSE after the response: `finish_and_close()` -/
+def onPut (c : Cfg) (s : St) (p : ObjId) (x : Cid) (ev : Option Bool) (val : Option Val) (cl : Bool) :
+    St × List Out :=
+  let r := if (s.obj p).verified then respond (putChars c s p x ev val) p 204 Body.none
+           else respond s p 401 Body.none
+  if cl then ((closeP c r.1 p).1, r.2 ++ (closeP c r.1 p).2) else r
+
+/-- dispatch of one complete request on a connection whose transport is open -/
+def onReq (c : Cfg) (s : St) (p : ObjId) (r : Req) : St × List Out :=
   if (s.obj p).pending then
     -- h11 is PAUSED until the delayed response is sent; `start_next_cycle` raises
     -- LocalProtocolError → `_handle_invalid_conn_state` → close()
@@ -320,14 +347,7 @@ def onData (c : Cfg) (s : St) (p : ObjId) (r : Req) : St × List Out :=
   match r with
   | .badHttp => closeP c s p
   | .badFrame => closeP c s p
-  | .put x ev val cl =>
-    let (s1, o1) :=
-      if (s.obj p).verified then respond (putChars c s p x ev val) p 204 Body.none
-      else respond s p 401 Body.none
-    if cl then
-      let (s2, o2) := closeP c s1 p
-      (s2, o1 ++ o2)
-    else (s1, o1)
+  | .put x ev val cl => onPut c s p x ev val cl
   | .get x =>
     if (s.obj p).verified then respond s p 200 (Body.value (s.value x))
     else respond s p 401 (Body.status (-70401))
@@ -340,6 +360,9 @@ def onData (c : Cfg) (s : St) (p : ObjId) (r : Req) : St × List Out :=
     -- handle_resource is not guarded by is_encrypted (C03's business, not ours)
     ({ s with obj := upd s.obj p { s.obj p with pending := true } }, [])
 
+/-- `data_received` with one complete request, on a connection whose transport is open. -/
+def onData (c : Cfg) (s : St) (p : ObjId) (r : Req) : St × List Out := onReq c (touch s p) p r
+
 /-- objects that are in the registry under their own address -/
 def registered (s : St) (q : ObjId) : Prop := s.reg (s.obj q).addr = some q
 
@@ -349,6 +372,13 @@ instance (s : St) (q : ObjId) : Decidable (registered s q) := by unfold register
 def idleDue (s : St) (q : ObjId) : Prop := registered s q ∧ (s.obj q).last + IDLE < s.now
 
 instance (s : St) (q : ObjId) : Decidable (idleDue s q) := by unfold idleDue; infer_instance
+
+/-- `AccessoryDriver.connection_lost(a)`: unsubscribe `a` everywhere, pop its prepared writes -/
+def dropConn (s : St) (a : Addr) : St :=
+  { s with topics := fun x => lostDel (s.topics x) a, prepared := upd s.prepared a none }
+
+/-- `connection_lost` has been processed for `p` -/
+def markLost (s : St) (p : ObjId) : St := { s with obj := upd s.obj p { s.obj p with lost := true } }
 
 def step (c : Cfg) (s : St) : Ev → St × List Out
   | .tick dt => ({ s with now := s.now + dt }, [])
@@ -377,11 +407,7 @@ def step (c : Cfg) (s : St) : Ev → St × List Out
     else (s, [])
   | .lose p =>
     if p < s.nobj ∧ (s.obj p).lost = false then
-      let a := (s.obj p).addr
-      -- AccessoryDriver.connection_lost(peername)
-      let s1 := { s with topics := fun x => lostDel (s.topics x) a, prepared := upd s.prepared a none }
-      let (s2, o2) := closeP c s1 p
-      ({ s2 with obj := upd s2.obj p { s2.obj p with lost := true } }, o2)
+      (markLost (closeP c (dropConn s (s.obj p).addr) p).1 p, (closeP c (dropConn s (s.obj p).addr) p).2)
     else (s, [])
   | .idleSweep =>
     ({ s with
@@ -400,10 +426,7 @@ def step (c : Cfg) (s : St) : Ev → St × List Out
 /-- run a trace, collecting outputs in chronological order -/
 def run (c : Cfg) : St → List Ev → St × List Out
   | s, [] => (s, [])
-  | s, e :: es =>
-    let (s1, o1) := step c s e
-    let (s2, o2) := run c s1 es
-    (s2, o1 ++ o2)
+  | s, e :: es => ((run c (step c s e).1 es).1, (step c s e).2 ++ (run c (step c s e).1 es).2)
 
 /-- initial state: no connection; always-null characteristics hold null, the others their default -/
 def init (c : Cfg) : St := { value := fun x => if c.nul x then none else some 0 }
